@@ -57,6 +57,12 @@ def parse_template(path):
     item = None
     for ln, line in enumerate(open(path, encoding="utf-8").read().split("\n"), 1):
         s = line.strip()
+        if s.startswith("//#include ") and item is None:
+            segs.append(cur)
+            inc = os.path.join(os.path.dirname(path), s[len("//#include "):].strip())
+            segs.extend(parse_template(inc))
+            cur = ("raw", [])
+            continue
         if s.startswith("//#item"):
             if item is not None:
                 raise Undecided("template-error", "%s:%d nested item" % (path, ln))
@@ -104,7 +110,7 @@ def normalise_item(attrs, raw_text):
         loops = 0
     elif kind == "fn":
         text = X.drop_attrs_and_docs(raw_text, log=log)
-        text, loops = X.normalise_fn(text, log=log)
+        text, loops = X.normalise_fn(text, log=log, signature_only=(attrs.get("body") == "opaque"))
     elif kind == "const":
         text = X.drop_attrs_and_docs(raw_text, log=log)
         loops = 0
@@ -113,11 +119,63 @@ def normalise_item(attrs, raw_text):
     return text, log, loops
 
 
+WEAK_ANCHORS = ("", "{", "}", "};", "} else {", "});", ")")
+INLINE_RE = re.compile(r"/\*@<(.*?)>@\*/")
+INLINE_GEN_RE = re.compile(r"/\*@<\*/.*?/\*>@\*/")
+
+
+def strip_inline(line):
+    return INLINE_RE.sub("", line)
+
+
+def inline_place(tpl_line, cur_line, item_id):
+    """Re-insert the token-level annotations of a template line into the current text of that line."""
+    pieces = INLINE_RE.split(tpl_line)  # code, marker, code, marker, ...
+    btoks = []
+    markers = []  # (index in btoks before which the marker sits, text)
+    for k, p in enumerate(pieces):
+        if k % 2 == 0:
+            btoks += [t.text for t in code_tokens(p)]
+        else:
+            markers.append((len(btoks), p))
+    ctoks = code_tokens(cur_line)
+    ctext = [t.text for t in ctoks]
+    pos = {}
+    if btoks == ctext:
+        mp = {i: i for i in range(len(btoks))}
+    else:
+        sm = difflib.SequenceMatcher(a=btoks, b=ctext, autojunk=False)
+        mp = {}
+        for tag, i1, i2, j1, j2 in sm.get_opcodes():
+            if tag == "equal":
+                for d in range(i2 - i1):
+                    mp[i1 + d] = j1 + d
+            elif tag == "replace" and (i2 - i1) == (j2 - j1):
+                for d in range(i2 - i1):
+                    mp[i1 + d] = j1 + d
+    inserts = []
+    for m, text in markers:
+        if m - 1 in mp:
+            off = ctoks[mp[m - 1]].end
+        elif m in mp:
+            off = ctoks[mp[m]].start
+        elif m == 0:
+            off = len(cur_line) - len(cur_line.lstrip())
+        else:
+            raise Undecided("lost-anchor", "%s: inline annotation %r has no anchor in %r" % (item_id, text, cur_line.strip()))
+        inserts.append((off, " /*@<*/ " + text.strip() + " /*>@*/ "))
+    out = cur_line
+    for off, text in sorted(inserts, key=lambda x: -x[0]):
+        out = out[:off] + text + out[off:]
+    return out
+
+
 def place_annotations(tpl_lines, cur_lines, item_id):
     """tpl_lines: [(kind, text)]; cur_lines: current normalised lines.
     Returns list of (is_annotation, text, cur_line_index_or_None)."""
-    base = [t for k, t in tpl_lines if k == "b"]
-    # strip leading/trailing blank baseline lines for comparison purposes only
+    base_raw = [t for k, t in tpl_lines if k == "b"]
+    base = [strip_inline(t) for t in base_raw]
+    inline_lines = [i for i, t in enumerate(base_raw) if INLINE_RE.search(t)]
     bn = [norm_line(x) for x in base]
     cn = [norm_line(x) for x in cur_lines]
     changed = bn != cn
@@ -130,9 +188,12 @@ def place_annotations(tpl_lines, cur_lines, item_id):
         else:
             runs.setdefault(nb, []).append(t)
     pos_map = {}
+    line_of = {}  # baseline line index -> current line index (for lines carrying inline annotations)
     if not changed:
         for i in runs:
             pos_map[i] = i
+        for i in inline_lines:
+            line_of[i] = i
     else:
         sm = difflib.SequenceMatcher(a=bn, b=cn, autojunk=False)
         ops = sm.get_opcodes()
@@ -146,6 +207,10 @@ def place_annotations(tpl_lines, cur_lines, item_id):
                 pos_map[i] = 0
             elif i == len(bn):
                 pos_map[i] = len(cn)
+            elif (i - 1) in b2c and bn[i - 1] not in WEAK_ANCHORS:
+                pos_map[i] = b2c[i - 1] + 1
+            elif i in b2c and bn[i] not in WEAK_ANCHORS:
+                pos_map[i] = b2c[i]
             elif (i - 1) in b2c and bn[i - 1] != "":
                 pos_map[i] = b2c[i - 1] + 1
             elif i in b2c and bn[i] != "":
@@ -160,6 +225,20 @@ def place_annotations(tpl_lines, cur_lines, item_id):
                         placed = True
                 if not placed:
                     raise Undecided("lost-anchor", "%s: annotation block after baseline line %d (%r) has no anchor in the current text" % (item_id, i, base[i - 1].strip() if i > 0 else ""))
+        for i in inline_lines:
+            if i in b2c:
+                line_of[i] = b2c[i]
+            else:
+                hit = None
+                for tag, i1, i2, j1, j2 in ops:
+                    if tag == "replace" and i1 <= i < i2 and (i2 - i1) == (j2 - j1):
+                        hit = j1 + (i - i1)
+                if hit is None:
+                    raise Undecided("lost-anchor", "%s: line with inline annotation (%r) has no counterpart in the current text" % (item_id, base[i].strip()))
+                line_of[i] = hit
+    cur_lines = list(cur_lines)
+    for i, j in line_of.items():
+        cur_lines[j] = inline_place(base_raw[i], cur_lines[j], item_id)
     out = []
     by_cpos = {}
     for i, ts in runs.items():
@@ -252,9 +331,13 @@ def identity_check(gen):
             bodies[cur].append(l)
     problems = []
     for it in gen["items"]:
-        got = "\n".join(bodies.get(it["id"], []))
+        got = INLINE_GEN_RE.sub("", "\n".join(bodies.get(it["id"], [])))
         toks = strip_attributes(code_tokens(got))
         back = X.denormalise_tokens(toks)
+        conds = [[t.text for t in code_tokens(x["cond"])] for x in it["rules_applied"] if x.get("rule") == "N2"]
+        if conds:
+            # the wrapper condition was denormalised too (it may contain nothing to denormalise)
+            back = X.invert_n2(back, conds)
         want = X.token_texts(it["raw_text"])
         if back != want:
             # first difference, for the report
@@ -320,7 +403,7 @@ def is_semantic(msg):
     m = msg.lower()
     return any(k in m for k in ("postcondition not satisfied", "precondition not satisfied", "invariant not satisfied",
                                 "assertion failed", "arithmetic underflow/overflow", "division by zero", "decreases not satisfied",
-                                "could not prove termination", "bit shift", "possible", "not satisfied"))
+                                "could not prove termination", "bit shift", "possible", "not satisfied", "unable to prove"))
 
 
 def is_resource(msg):
@@ -360,6 +443,8 @@ def map_error_to_obligation(err, obs, fns):
         want_kind = ("assert",)
     elif "decreases" in msg or "termination" in msg:
         want_kind = ("decreases",)
+    elif "post-condition of closure" in msg:
+        want_kind = ("closure_ensures",)
     elif "precondition" in msg:
         want_kind = ("pre", "safety")
     else:
@@ -401,11 +486,14 @@ def scan_assumptions(text):
     for ln, l in enumerate(text.split("\n"), 1):
         code = l.split("//")[0]
         for pat, name in ((r"\bassume\s*\(", "assume"), (r"\badmit\s*\(", "admit"), (r"external_body", "external_body"),
-                          (r"\bassume_specification\b", "assume_specification"), (r"#\[verifier::external", "verifier::external"),
+                          (r"\bassume_specification\b", "assume_specification"), (r"\baxiom\s+fn\b", "axiom"), (r"#\[verifier::external", "verifier::external"),
                           (r"external_type_specification|external_trait_specification", "external_spec")):
             if re.search(pat, code):
                 m = re.search(r"assume_specification\s*(?:<[^>]*>)?\s*\[\s*([^\]]+)\]", code)
                 what = name
+                ma = re.search(r"axiom\s+fn\s+(\w+)", code)
+                if ma:
+                    what = "axiom[%s]" % ma.group(1)
                 if m:
                     what = "assume_specification[%s]" % " ".join(m.group(1).split())
                 found.append((ln, what, " ".join(l.split())))
